@@ -143,6 +143,6 @@ Example C10_error_ex :
   status (recv h_accepts max_buf [[130;2]%N; [88;3;1;2;3;28]%N]) = Failed
   /\ map fst (delivered (recv h_accepts max_buf [[130;2]%N; [88;3;1;2;3;28]%N])) = [2%N].
 Proof. vm_compute. split; reflexivity. Qed.
-(* batching: 3 messages wanted in one batch *)
-Example C10_sender_ex : send_lens [10; 70000; 5; 7]%N [3; 1]%N = [65535; 4480; 7]%N.
+(* batching: 3 messages wanted, but the batch stops once it spills over one segment *)
+Example C10_sender_ex : send_lens [10; 70000; 5; 7]%N [3; 2]%N = [65535; 4475; 12]%N.
 Proof. vm_compute. reflexivity. Qed.
